@@ -1,6 +1,8 @@
 SPECIFICATION GSpec
 CONSTANTS
   AckWhileClosing = FALSE
-  MaxLen = 8
+  GCIgnoresSettleFails = FALSE
+  ReforwardSkipsLockedIn = FALSE
+  MaxLen = 10
 INVARIANTS Dump
 CHECK_DEADLOCK FALSE
